@@ -103,11 +103,13 @@ def run_chunk(arg):
             for buf in BUFS:
                 base, _ = ref_cb(rules, imports, flags, buf, {})
                 scripts = [{}]
-                for k in range(len(base)):
+                for k in (range(len(base)) if len(rules) <= 4 else sorted({0, 1, len(base) // 2, len(base) - 2, len(base) - 1} & set(range(len(base))))):
                     kinds = ("E",) if base[k][0] in ("imp", "imd") else ("A", "E")
                     for a in kinds:
                         scripts.append({k: a})
-                if tier != "quick" or len(rules) <= 2:
+                if len(rules) > 4:
+                    scripts.append({})          # once more after the aborted / failed scans: their leftovers must not show
+                elif tier != "quick" or len(rules) <= 2:
                     for k1 in range(len(base)):
                         for k2 in range(k1 + 1, len(base)):
                             for a1 in (("E",) if base[k1][0] in ("imp", "imd") else ("A", "E")):
@@ -147,6 +149,14 @@ def main():
                 items.append((r, im, "rules-api"))
                 if im:
                     items.append((r, im, "dup"))
+    # large rule sets: the per-rule and per-namespace bitmaps cross byte and 64-bit word boundaries; one scanner serves the whole series of scans, whose
+    # buffers alternate between one that makes the `$a` rules match and one that does not
+    cyc = [("", "A"), ("", "T"), ("", "F"), ("p", "A"), ("", "A"), ("", "U"), ("p", "T"), ("", "A")]
+    for N in ((9, 17, 65) if ck.tier == "quick" else (9, 17, 33, 63, 64, 65, 66, 129, 200)):
+        for nsmode in ("one", "alternate", "global-last"):
+            r = [(cyc[i % len(cyc)][0], cyc[i % len(cyc)][1], "n1" if nsmode != "alternate" or i % 2 == 0 else "n2") for i in range(N)]
+            if nsmode == "global-last": r[-1] = ("g", "A", "n1")
+            items.append((r, IMPORTS[1], "scanner"))
     if ck.seed:
         import random
         random.Random(ck.seed).shuffle(items)   # order only; the space is walked completely
@@ -169,7 +179,7 @@ def main():
                       "{true,false,undefined,$a} x 2 namespaces, x imports x 4 report-flag settings x 2 buffers x every callback "
                       "script with <=1 (and <=2 for short sets/thorough) non-continue answers; states = distinct (expected message "
                       "sequence, rc) pairs of the protocol automaton reached; transitions = callback messages delivered by the real "
-                      "scanner; every execution is a model trace replayed on the implementation")
+                      "scanner; every execution is a model trace replayed on the implementation; plus rule sets of 9..65 (200) rules in three namespace layouts, scanned in series on one scanner")
     ck.assumptions += ["abort returned for a module message is not specified by the property and is not generated",
                        "undefined condition is produced by an integer read past the end of the buffer"]
     ck.finish()
